@@ -25,7 +25,7 @@ RULE = (
     "A case is a batch of 12 scenarios taken in turn from a seed-shuffled permutation of the shared catalogue of library-component scenarios, so the quick tier (ceil(N/12) batches) executes every one of the N ~ 300 scenarios (catalogue + determinism-specific ones: string-fed sketches, every cache eviction policy under string keys, default-clock TTL cache, a ParallelSimulation fan-in whose worker threads are slowed in real time, load-balancer strategies fed with key-less requests, CRDT stores with a late joiner) (all families: "
     "sources, queues, servers, networks, consensus, storage, caches, sketches fed with str/bytes/tuple items, messaging, "
     "...; default or hostile parameters) with one seed each (seed 0, a legal and falsy seed, 12 % of the time), executed in 4 fresh interpreters: PYTHONHASHSEED=0 in "
-    "catalogue order; =1 in reverse order with an unrelated Simulation constructed (never run) between building each model and running it; =12345 shuffled, every scenario run twice in a row; =random with "
+    "catalogue order; =1 in reverse order, each model preceded by a run of the same model with another seed and by the construction (never run) of an unrelated Simulation between building it and running it; =12345 shuffled, every scenario run twice in a row; =random with "
     "time.time/monotonic/perf_counter replaced by offset+jumping clocks (the wall clock also stepping backwards). All executions of one (scenario, seed) must "
     "have equal digests = sha256(delivery log (time ns, event type, target) from the engine probe + public stats "
     "snapshot of every component, wall-clock fields removed). A mismatch is diagnosed by re-running that scenario alone "
@@ -101,7 +101,7 @@ def run(case: dict) -> Result:
     ]
     runs = []
     for hs, order, perturb, slow in plans:
-        out = _child({"items": items, "order": order, "perturb_time": perturb, "slow": (slow or "")[:1] or None, "interleave_construct": bool(slow and "bystander" in slow)}, hs)
+        out = _child({"items": items, "order": order, "perturb_time": perturb, "slow": (slow or "")[:1] or None, "interleave_construct": bool(slow and "bystander" in slow), "precede_other_seed": bool(slow and "bystander" in slow)}, hs)
         runs.append((hs, order, perturb, out["results"]))
     per_item: dict[int, list] = {i: [] for i in range(n)}
     for hs, order, perturb, results in runs:
@@ -163,6 +163,9 @@ def _diagnose(item, case) -> tuple[str, str]:
     sb = _child({**alone, "slow": "B"}, "0")["results"][0]
     if sa["digest"] != sb["digest"]:
         return "thread-timing", _first_diff(sa, sb)
+    os_ = _child({**alone, "precede_other_seed": True}, "0")["results"][0]
+    if os_["digest"] != a0["digest"]:
+        return "same-model-run-with-another-seed-before", _first_diff(a0, os_)
     by = _child({**alone, "interleave_construct": True}, "0")["results"][0]
     if by["digest"] != a0["digest"]:
         return "other-simulation-constructed-before-run", _first_diff(a0, by)
